@@ -180,6 +180,16 @@ def search_options(r, epg, ncase):
                 epg.simulate(useq(p_nc, epg.System(coords=c1)))
                 s2 = np.asarray(epg.simulate(useq(p_nc, epg.System(coords=c2))))
                 s2ref = np.asarray(epg.simulate(useq(probe.Imaging(c2, reduce=False, **kw))))
+                # two protocols started from ONE StateMatrix object: A declares weights / off-resonance through System(),
+                # B declares nothing and must not see what A declared (simulate(init=sm0) and out-of-place System(...)(sm0))
+                sm0 = epg.StateMatrix()
+                p_b = probe.Imaging(c1, reduce=False, **kw)
+                w1 = r.uniform(0.2, 2, size=(1,))
+                epg.simulate(useq(p_b, epg.System(modulation=mod, weights=w1)), init=sm0)
+                b_after = np.asarray(epg.simulate(useq(p_b), init=sm0))
+                smA = epg.System(modulation=mod, weights=w1)(sm0)
+                b_after2 = np.asarray(epg.simulate(useq(p_b), init=sm0))
+                b_fresh = np.asarray(epg.simulate(useq(probe.Imaging(c1, reduce=False, **kw))))
         except Exception as exc:
             dis.append({"kind": "c15-options", "problems": [("raised", repr(exc))], "input": {"batch": batch, "npos": npos, "pdim": pdim}})
             continue
@@ -191,6 +201,9 @@ def search_options(r, epg, ncase):
             probs.append(("coords/modulation/weights from System() differ from the probe's own arguments", a1.tolist(), b.tolist()))
         if s2.shape != s2ref.shape or not np.allclose(s2, s2ref, atol=1e-10):
             probs.append(("positions changed through System() between two uses of one probe instance are not honoured", s2.tolist(), s2ref.tolist()))
+        if b_after.shape != b_fresh.shape or not np.allclose(b_after, b_fresh, atol=1e-10) or not np.allclose(b_after2, b_fresh, atol=1e-10):
+            probs.append(("a run that declares nothing sees the System(weights, modulation) another run declared on a copy of the same "
+                          "StateMatrix", b_after.tolist(), b_after2.tolist(), b_fresh.tolist()))
         wexp = raw * weights.reshape((1,) + batch + (1,) * (raw.ndim - 1 - len(batch)))[..., : raw.shape[-1]] if raw.ndim == len(batch) + 2 else raw * weights[None]
         if wraw.shape != wexp.shape or not np.allclose(wraw, wexp, atol=1e-10):
             probs.append(("weights are not a plain multiplication of the unreduced values", wraw.tolist(), wexp.tolist()))
